@@ -134,7 +134,7 @@ func runC04(c *Ctx) {
 
 func calleeShort(info *types.Info, call *ast.CallExpr) string {
 	if f := gf.StaticCallee(info, call); f != nil {
-		return f.Name()
+		return pinnedName(f)
 	}
 	return "?"
 }
